@@ -71,9 +71,17 @@ def gen_side(rng, prefix, allow_cat=True):
         return None
     n = rng.randint(1, 4)
     idpat = rng.choice(["pos", "one", "rev", "sparse", "neg"])
-    items = shim_api.make_items(n, idpat, prefix)
     kind = rng.choice(["mr", "mr", "ca"])
-    dim = shim_api.lean_dim(items, False)
+    mr_ins = kind == "mr" and rng.random() < 0.45
+    if mr_ins:
+        # MR with view insertions: first item inserted (anchored); aliases that read as ANOTHER item's element id,
+        # decimal sub-variable ids (as in real payloads), real sub-variables flagged derived or not
+        n = rng.randint(2, 4)
+        items = shim_api.make_items(n, idpat, prefix, n_ins=1, alias_style=rng.choice(["numeric", "numeric", "plain"]),
+                                    all_derived=rng.random() < 0.3, sv_style=rng.choice(["pad", "dec"]))
+    else:
+        items = shim_api.make_items(n, idpat, prefix)
+    dim = shim_api.lean_dim(items, mr_ins)
 
     def ref(k=None):
         k = rng.randrange(n) if k is None else k
@@ -106,7 +114,7 @@ def gen_side(rng, prefix, allow_cat=True):
         xf["bottom"] = reflist(2)
     if rng.random() < 0.5:
         xf["opposing"] = {"ref": rng.choice(["zz", 999]) if rng.random() < 0.25 else ref()}
-    return {"kind": kind, "items": items, "dim": dim, "xf": xf}
+    return {"kind": kind, "items": items, "dim": dim, "xf": xf, "mr_ins": mr_ins}
 
 
 def gen_hist(rng):
@@ -164,6 +172,9 @@ def hist_build(case):
         vars_.append(var_of(cols, "c"))
     survey = gen.gen_survey(rng, vars_, n_resp=rng.randint(5, 25), weighted=False, skew=False)
     resp = gen.cube_response(vars_, survey, False)
+    for side, alias in ((rows, "r"), (cols, "c")):
+        if side is not None and side.get("mr_ins"):
+            shim_api.add_mr_insertions(resp, alias, side["items"])
     tr = {}
     for side, name in ((rows, "rows_dimension"), (cols, "columns_dimension")):
         if side is None:
@@ -189,6 +200,8 @@ def part_observe(part, p, tr):
     if d.dimension_type not in (DT.MR_SUBVAR, DT.CA_SUBVAR, DT.NUM_ARRAY):
         return None
     what = OBS[p // 2]
+    # every observable of a side looks at that side's Dimension (as the model's `ensure` does): both of its shims run
+    d._dimension_dict, d._dimension_transforms_dict
     if what == "element_ids":
         return [sc.canon_ref(e) for e in d.element_ids]
     if what == "hidden":
@@ -381,18 +394,47 @@ def gen_api(rng):
     nsched = rng.randint(25, 60)
     return {"t": "api", "kinds": kinds, "seed": rng.randrange(1 << 30), "nsched": nsched,
             "population": rng.choice([None, None, 1000, 12345]), "min_base": rng.choice([0, 0, 0, 5, 30]),
-            "with_set": rng.random() < 0.5, "ncubes": rng.choice([1, 2, 2])}
+            "with_set": rng.random() < 0.5, "ncubes": rng.choice([1, 2, 2]),
+            "mrins": rng.random() < 0.35, "holes": rng.random() < 0.2, "numeric_all": rng.random() < 0.3}
+
+
+def gen_scale(rng):
+    """cubes with numeric values on every category and NaN / null holes in the weighted count payload:
+    the scale-mean / median / std-dev family reads (and rewrites?) the same cached count arrays"""
+    kinds = rng.choice([["cat"], ["cat"], ["cat"], ["cat_date"], ["cat", "cat"], ["cat", "mr"], ["mr", "cat"], ["cat_date", "cat"],
+                        ["cat", "cat", "cat"]])
+    return {"t": "api", "kinds": kinds, "seed": rng.randrange(1 << 30), "nsched": rng.randint(15, 30),
+            "population": rng.choice([None, 1000]), "min_base": 0, "with_set": rng.random() < 0.3, "ncubes": 1,
+            "mrins": False, "holes": True, "numeric_all": True, "focus": "scale", "no_missing": rng.random() < 0.7}
 
 
 def api_build(case):
     """pristine (response, transforms)"""
     rng = random.Random(case["seed"])
     vars_ = []
+    ins_items = {}
     for i, k in enumerate(case["kinds"]):
-        v = gen.gen_var(rng, k, "v%d" % i, n=rng.randint(2, 4), min_valid=2)
+        v = gen.gen_var(rng, k, "v%d" % i, n=rng.randint(2, 4), min_valid=2,
+                        numeric="all" if case.get("numeric_all") else "some",
+                        allow_missing=not case.get("no_missing"))
+        if k == "mr" and case.get("mrins") and len(v.items) >= 2:
+            # MR with view insertions whose aliases read as ANOTHER item's element id (legal, colliding)
+            n = len(v.items)
+            ids = [it["id"] for it in v.items]
+            for j, it in enumerate(v.items):
+                it["alias"] = str(ids[(j + 1) % n])
+            ins_items[v.alias] = [dict(it, anchor=(j == 0), derived=(j == 0)) for j, it in enumerate(v.items)]
         vars_.append(v)
-    survey = gen.gen_survey(rng, vars_, n_resp=rng.randint(8, 40), weighted=rng.random() < 0.5)
+    weighted = rng.random() < 0.5 or bool(case.get("holes"))
+    survey = gen.gen_survey(rng, vars_, n_resp=rng.randint(8, 40), weighted=weighted)
     resp = gen.cube_response(vars_, survey, True)
+    for alias, items in ins_items.items():
+        shim_api.add_mr_insertions(resp, alias, items)
+    if case.get("holes"):
+        data = resp["result"]["measures"]["count"]["data"]
+        if data != resp["result"]["counts"]:
+            for _ in range(rng.randint(1, 2)):
+                data[rng.randrange(len(data))] = rng.choice([float("nan"), None])
     # apparent dimensions and their transforms
     app = []
     for v in vars_:
@@ -537,6 +579,51 @@ def eval_api(case, louts, ctx):
                                json.dumps(got)[:200], json.dumps(want)[:200], where)))
             nerr += 1
             if nerr > 3:
+                break
+    # full sweeps: every property of a target read once in a random order on new objects, then in the REVERSE
+    # order on other new objects -- between them every ordered pair (a read before b) occurs on one object
+    if nerr == 0:
+        sweep_targets = [t for t in targets if "." in t and t.startswith("cube0")]
+        if not case.get("focus"):
+            sweep_targets = [rng.choice(sweep_targets)] if sweep_targets else []
+        sweep_targets.append("cube0")
+        if "set" in probe and rng.random() < 0.5:
+            sweep_targets.append("set")
+        for t in sweep_targets:
+            names = list(reads_by_target[t])
+            if case.get("focus") == "scale" and "." in t:
+                names = [n for n in names if "scale" in n or n in ("counts", "means", "rows_margin", "columns_margin",
+                                                                   "table_proportions", "unweighted_counts", "rows_base")]
+            rng.shuffle(names)
+            # ... and "a first, then everything else": an in-place edit of a shared cached array by `a` only shows
+            # when nothing that caches values derived from that array was read before it
+            firsts = list(names) if case.get("focus") else rng.sample(names, min(6, len(names)))
+            orders = [(names, "forward"), (names[::-1], "reverse")]
+            for a in firsts:
+                rest = [n for n in names if n != a]
+                rng.shuffle(rest)
+                orders.append(([a] + rest, "first"))
+            for order, tag in orders:
+                o2 = make_objects(dict(case, ncubes=1), copy.deepcopy(resp0), copy.deepcopy(tr0))
+                try:
+                    target = resolve_target(o2, t)
+                except Exception as e:  # noqa
+                    break
+                for j, n in enumerate(order):
+                    got = read(target, n)
+                    want = fresh(t, n)
+                    ok, where = common.deep_close(got, want)
+                    if not ok:
+                        cls = t.split(".")[0].rstrip("0123456789")
+                        part = ".partition" if "." in t else ""
+                        findings.append(F("spec", "api.%s%s.order-dependent" % (cls, part),
+                                          "%s: %s.%s read after %s gives %s, read alone on a fresh object it gives %s (%s)" %
+                                          (desc, t, n, order[max(0, j - 8):j], json.dumps(got)[:160], json.dumps(want)[:160], where)))
+                        nerr += 1
+                        break
+                if nerr:
+                    break
+            if nerr:
                 break
     # the caller's dicts must be re-usable: one more cube on them, like for like
     kinds_key = tuple(case["kinds"])
@@ -707,10 +794,12 @@ def eval_set(case, louts, ctx):
 def generate(ctx):
     rng = ctx.rng
     cases = []
-    for _ in range(ctx.n(1000, 8000)):
+    for _ in range(ctx.n(800, 8000)):
         cases.append(gen_hist(rng))
-    for _ in range(ctx.n(400, 4000)):
+    for _ in range(ctx.n(130, 1700)):
         cases.append(gen_api(rng))
+    for _ in range(ctx.n(60, 600)):
+        cases.append(gen_scale(rng))
     for _ in range(ctx.n(80, 600)):
         cases.append(dict(gen_api(rng), t="forms"))
     for _ in range(ctx.n(120, 900)):
